@@ -37,9 +37,13 @@ class Ids:
 def magic_value(rng, ids):
     """a numeric literal unlikely to collide, in one of several spellings; returns (source text, value as Python number)"""
     v = rng.randint(1200, 9899) * 10 + rng.randint(1, 9)
-    form = rng.choice(["dec", "dec", "dec", "float", "underscore"])
+    form = rng.choice(["dec", "dec", "dec", "float", "underscore", "longfloat", "longfloat"])
     if form == "float":
         return f"{v}.5", v + 0.5
+    if form == "longfloat":
+        # more significant digits than a short float format keeps (the message must still quote the literal's value)
+        frac = rng.choice(["458", "0339887", "8125", "00390625"])
+        return f"{v}.{frac}", float(f"{v}.{frac}")
     if form == "underscore":
         s = str(v)
         return f"{s[:-3]}_{s[-3:]}", v
@@ -141,9 +145,30 @@ def py_loc_edge(rng, ids, style):
     return Unit(lines, [], "py_loc_edge")
 
 
+def py_zoo(rng, ids, style):
+    """valid modern Python that no planted rule targets: the analyzers must get through it"""
+    i = ids.next()
+    if style == "match":
+        lines = [f"def route_{i}(command):", "    match command:", "        case ['go', direction]:", "            return direction", "        case ['stop'] | ['halt']:",
+                 "            return None", "        case {'kind': kind, **rest} if rest:", "            return kind", "        case _:", "            return command", ""]
+    elif style == "walrus":
+        lines = [f"def scan_{i}(stream):", "    while (chunk := stream.read()) is not None:", "        yield chunk", f"    return [y for x in stream if (y := x.strip())]", ""]
+    elif style == "async":
+        lines = [f"async def gather_{i}(session, urls):", "    async with session.open() as conn:", "        async for row in conn.rows(urls):", "            yield row",
+                 f"    return [r async for r in conn.rows(urls)]", ""]
+    elif style == "typing":
+        lines = [f"def typed_{i}[T](items: list[T], *, key: 'Callable[[T], int] | None' = None, **extra: object) -> dict[str, T]:", "    table: dict[str, T] = {}",
+                 "    for position, element in enumerate(items):", "        table[f'{position!r:>4}'] = element", "    return table", ""]
+    else:
+        lines = [f"def guarded_{i}(resource):", "    try:", "        value = resource.load()", "    except (OSError, ValueError) as error:", "        raise RuntimeError('failed') from error",
+                 "    else:", "        return value", "    finally:", "        resource.close()", f"squares_{i} = {{n: n * n for n in range(4) if n}}", f"pick_{i} = lambda first, *rest, flag=False: rest if flag else first", ""]
+    return Unit(lines, [], "py_zoo_" + style)
+
+
 PY_UNITS = [(py_nest, ["plain", "multiline", "decorated", "async"]), (py_srp, ["plain", "decorated", "base"]), (py_stateless, ["plain"]),
             (py_method_property, ["plain"]), (py_magic, ["plain", "multiline", "unicode", "continuation"]), (py_print, ["plain", "multiline"]),
-            (py_perf, ["plain"]), (py_pipeline, ["plain"]), (py_filler, ["plain"]), (py_loc_edge, ["plain"])]
+            (py_perf, ["plain"]), (py_pipeline, ["plain"]), (py_filler, ["plain"]), (py_loc_edge, ["plain"]),
+            (py_zoo, ["match", "walrus", "async", "typing", "try"])]
 
 
 # ---------------------------------------------------------------- TypeScript units
@@ -207,8 +232,26 @@ def ts_loc_edge(rng, ids, style):
     return Unit(lines, [], "ts_loc_edge")
 
 
+def ts_zoo(rng, ids, style):
+    i = ids.next()
+    if style == "generics":
+        lines = [f"function pluck{i}<T extends object, K extends keyof T>(obj: T, ...keys: K[]): Array<T[K]> {{", "  return keys.map((key) => obj[key]);", "}",
+                 f"enum Mode{i} {{ Fast = 'fast', Slow = 'slow' }}", f"type Alias{i} = {{ readonly [key: string]: number | undefined }};"]
+    elif style == "fluent":
+        # a method that reads and writes but is exempt as a fluent interface: it ends with `return this;`
+        lines = [f"class Builder{i} {{", "  private parts: string[] = [];", "  add(source: Source): this {", "    const piece = source.fetch();", "    this.parts.push(piece);",
+                 "    return this;", "  }", "}"]
+    elif style == "async":
+        lines = [f"async function load{i}(api?: Api): Promise<string | null> {{", "  const value = (await api?.get?.('key')) ?? null;", "  const label = `got ${value ?? 'nothing'} at ${Date.now()}`;",
+                 "  return value === null ? null : label;", "}"]
+    else:
+        lines = [f"const handlers{i} = {{", "  ['computed' + 1]: () => undefined,", "  async *stream() { yield* []; },", "  get size() { return 0; },", "};",
+                 f"const [first{i}, ...rest{i}] = [1, 2, 3];"]
+    return Unit(lines, [], "ts_zoo_" + style)
+
+
 TS_UNITS = [(ts_nest, ["plain", "multiline", "export"]), (ts_srp, ["plain", "export", "decorated_export"]), (ts_magic, ["plain", "multiline"]), (ts_print, ["plain"]),
-            (ts_filler, ["plain"]), (ts_loc_edge, ["plain"])]
+            (ts_filler, ["plain"]), (ts_loc_edge, ["plain"]), (ts_zoo, ["generics", "fluent", "async", "objects"])]
 
 
 # ---------------------------------------------------------------- Rust units
@@ -292,10 +335,42 @@ def rs_test(rng, ids, style):
     return Unit(lines, [], "rs_test_" + style)
 
 
+def rs_zoo(rng, ids, style):
+    i = ids.next()
+    if style == "traits":
+        lines = [f"pub trait Shape{i} {{", "    fn area(&self) -> f64;", "    fn name(&self) -> String { String::from(\"shape\") }", "}",
+                 f"impl<T: Shape{i} + ?Sized> Shape{i} for Box<T> {{", "    fn area(&self) -> f64 { (**self).area() }", "}"]
+    elif style == "tokio":
+        # a drop-in async module imported from another crate: its short paths are not std calls (nothing to report)
+        lines = [f"mod async_io_{i} {{", "    use tokio::fs;", "    use tokio::{", "        net,", "        time,", "    };", "    pub async fn load() -> usize {",
+                 "        let text = fs::read_to_string(\"data.txt\").await;", "        let _sock = net::UdpSocket::bind(\"0.0.0.0:0\").await;", "        text.map(|t| t.len()).unwrap_or(0)", "    }", "}"]
+    elif style == "lifetimes":
+        lines = [f"fn longest_{i}<'a, 'b: 'a>(left: &'a str, right: &'b str) -> &'a str {{", "    if left.len() >= right.len() { left } else { right }", "}"]
+    elif style == "match":
+        lines = [f"fn classify_{i}(value: Option<i32>) -> &'static str {{", "    match value {", "        Some(n) if n < 0 => \"negative\",", "        Some(0) => \"zero\",",
+                 "        Some(1..=9) | Some(10) => \"small\",", "        Some(_) => \"large\",", "        None => \"none\",", "    }", "}"]
+    else:
+        lines = [f"macro_rules! square_{i} {{", "    ($x:expr) => { $x * $x };", "}", f"fn apply_{i}<F: Fn(i32) -> i32>(f: F) -> i32 {{", "    let add = |a: i32, b: i32| -> i32 { a + b };",
+                 "    f(add(1, 2))", "}"]
+    return Unit(lines, [], "rs_zoo_" + style)
+
+
 RS_UNITS = [(rs_nest, ["plain", "multiline", "attr"]), (rs_unwrap, ["plain", "chain", "nested_arg"]), (rs_clone, ["plain", "multiline", "let"]),
-            (rs_blocking, ["plain", "multiline"]), (rs_magic, ["plain"]), (rs_srp, ["plain"]), (rs_filler, ["plain"]), (rs_test, ["fn", "module"])]
+            (rs_blocking, ["plain", "multiline"]), (rs_magic, ["plain"]), (rs_srp, ["plain"]), (rs_filler, ["plain"]), (rs_test, ["fn", "module"]),
+            (rs_zoo, ["traits", "lifetimes", "match", "macros", "tokio"])]
 
 UNITS = {"py": PY_UNITS, "ts": TS_UNITS, "rs": RS_UNITS}
+ZOO = {"py": (py_zoo, ["match", "walrus", "async", "typing", "try"]), "ts": (ts_zoo, ["generics", "fluent", "async", "objects"]), "rs": (rs_zoo, ["traits", "lifetimes", "match", "macros", "tokio"])}
+
+
+def zoo_file(lang: str):
+    """every language-feature unit of one language in one file"""
+    import random
+    ids, out = Ids("zoo"), (["import os", ""] if lang == "py" else [])
+    fn, styles = ZOO[lang]
+    for st in styles:
+        out += fn(random.Random(0), ids, st).lines + [""]
+    return "\n".join(out) + "\n"
 COMMENT = {"py": "# ", "ts": "// ", "rs": "// "}
 WRAP = {"py": ("if FEATURE_{id}:", None, "    "), "ts": ("namespace Space{id} {{", "}", "  "), "rs": ("mod space_{id} {{", "}", "    ")}
 
